@@ -14,14 +14,14 @@ import (
 // key and IV drawn from the random source in this call; a certificate that
 // cannot be used is a hard error, never a silent downgrade to plaintext.
 func Harness_C08_nodowngrade() {
-	layout := verifChoose("keyLayout", 5)
+	layout := verifChoose("keyLayout", 6)
 	r := idpScenario(layout, false, false)
 	if err := (DefaultAssertionMaker{}).MakeAssertion(r.req, r.session); err != nil {
 		return
 	}
 	before := len(r.drawn)
 	err := r.req.MakeAssertionEl()
-	advertised := layout == 1 || layout == 2 || layout == 4
+	advertised := layout == 1 || layout == 2 || layout == 4 || layout == 5
 	if err != nil {
 		verifReach("refused")
 		return
